@@ -38,7 +38,7 @@ def prepare_test_dir(plugin, test_dir):
 def models_for(plugin, work, thorough):
     """Model files A (base) and B (a different model) for a plugin, sized so that a run is short."""
     com = docs.committed()
-    if plugin in ("python", "rust") or (plugin == "dotnet" and thorough):
+    if plugin in ("python", "rust"):
         a = com
         b, _ = docs.without(com, "textDocument/moniker")
     else:
